@@ -530,12 +530,26 @@ def delete_old_backups(options):
         os.unlink(os.path.join(options.repository, fname))
 
 
+def check_stamp_unused(options, tnow):
+    # File names have a resolution of one second and the .index / .dat files
+    # are shared by all files of a second; find_files() cannot order two
+    # backups of the same second.  Refuse a second run within one second.
+    stamp = gen_filename(options, ext='', now=tnow)
+    for fname in os.listdir(options.repository):
+        if fname.startswith(stamp + '.'):
+            raise WouldOverwriteFiles(
+                'Cannot overwrite existing file: %s (a backup was already '
+                'made in this second)'
+                % os.path.join(options.repository, fname))
+
+
 def do_full_backup(options):
     options.full = True
     tnow = gen_filedate(options)
     dest = os.path.join(options.repository, gen_filename(options, now=tnow))
     if os.path.exists(dest):
         raise WouldOverwriteFiles('Cannot overwrite existing file: %s' % dest)
+    check_stamp_unused(options, tnow)
     # Find the file position of the last completed transaction.
     fs = FileStorage(options.file, read_only=True)
     # Note that the FileStorage ctor calls read_index() which scans the file
@@ -569,6 +583,7 @@ def do_incremental_backup(options, reposz, repofiles):
     dest = os.path.join(options.repository, gen_filename(options, now=tnow))
     if os.path.exists(dest):
         raise WouldOverwriteFiles('Cannot overwrite existing file: %s' % dest)
+    check_stamp_unused(options, tnow)
     # Find the file position of the last completed transaction.
     fs = FileStorage(options.file, read_only=True)
     # Note that the FileStorage ctor calls read_index() which scans the file
